@@ -377,6 +377,10 @@ CONTENT_PROGS = [
     [(5, [("data", [("u", "rem not a comment"), ("u", "Data")])]), (7, [("rem", "data Not items, really", "REM")])],
     [(10, [("read", [("var", "A"), ("var", "B"), ("var", "C")])]), (30, [("data", [("n", 10.0, ["10"]), ("n", 20.0, ["20"]), ("h", 31, "1F")])])],
     [(10, [("read", [("var", "A"), ("var", "B$")])]), (30, [("data", [("q", "X Y"), ("n", 0.5, [".5"])])])],
+    # the text ends in a name that is a string function's name without its $ (an ordinary variable)
+    [(10, [("let", ("var", "B"), ("num", 2.0, ["2"]), False), ("let", ("var", "A"), ("var", "MID"), False)])],
+    [(10, [("let", ("var", "CHR"), ("num", 3.0, ["3"]), False)]), (20, [("print", [("e", ("var", "CHR"))], None)])],
+    [(10, [("let", ("var", "A"), ("bin", "+", ("var", "STRING"), ("var", "LEFT")), False)]), (20, [("let", ("var", "Q"), ("var", "HEX"), False)])],
 ]
 
 
